@@ -60,6 +60,8 @@ def run(ctx):
         if nviol <= 40: ctx.violation(msg, w)
     kinds = CONFIGS if ctx.tier != 'quick' else CONFIGS
     for kind in kinds:
+        try: make_sim(kind, rng.randrange(1, 10**5), variant=1).run()     # the first sim of this kind in this process carries OTHER data (tables, efficacies): whatever it leaves behind is seen below
+        except Exception: pass
         for rep in range(ctx.n(1, 4)):
             seed = rng.randrange(1, 10**5)
             W = dict(config=kind, seed=seed)
@@ -89,6 +91,7 @@ def run(ctx):
             try:
                 b = make_sim(kind, seed); b.init(); np.random.random(rng.randrange(1, 40)); b.run(); compare('np.random draws between init and run', fingerprint(b))
                 c = make_sim(kind, seed); c.init(); o = make_sim(CONFIGS[rng.randrange(len(CONFIGS))], seed + 17); o.run(); c.run(); compare('another sim created and run in between', fingerprint(c))
+                v_ = make_sim(kind, seed + 5, variant=1); v_.run(); c2 = make_sim(kind, seed); c2.run(); compare('a sim of the same kind with other data run before (same process)', fingerprint(c2))
                 o2 = make_sim(kind, seed + 1); o2.init(); d_ = make_sim(kind, seed); d_.init(); o2.run(); d_.run(); compare('another sim initialised before and run in between', fingerprint(d_))
                 e = make_sim(kind, seed); e2 = copy.deepcopy(e); e.run(); e2.run(); compare('deep-copied twin run afterwards', fingerprint(e2))
                 # a perturbation of the process-wide generator at a loop-function boundary
@@ -111,8 +114,10 @@ def run(ctx):
                 ctx.count(('seedchange', kind, tr));
                 if np.array_equal(vx, vy): viol(f'{kind}: distribution {tr} has the same stream under seeds {seed} and {seed + 1}', dict(W, trace=tr))
         # worker process with another hash seed (one seed per configuration)
-        if ctx.tier != 'quick' or kind in CONFIGS[:6]:
+        if ctx.tier != 'quick' or kind in CONFIGS[:7]:
             seed = rng.randrange(1, 10**5)
+            try: make_sim(kind, seed + 9, variant=1).run()          # this process has already run sims of the same kind with other data
+            except Exception: pass
             a = make_sim(kind, seed); a.run(); ref = {k: hashlib.sha1(v).hexdigest() for k, v in fingerprint(a).items()}
             users = sorted(module_classes(a) & gclasses)
             env = dict(os.environ, PYTHONHASHSEED=str(rng.randrange(1, 1000)), PYTHONPATH='/repo:' + VERIF)
